@@ -60,3 +60,153 @@ def derivatives_native(vc):
     vc.ensures("gradient_covariance_symmetric", bool(ok_sym))
     vc.ensures("gradient_covariance_positive_semidefinite", bool(ok_psd))
     vc.ensures("gradient_covariance_is_prior_minus_explained", bool(ok_formula))
+
+
+# ================================================================================================
+# proof layer
+# ================================================================================================
+import ast
+import z3
+from pyvc import sym as S
+from pyvc.sym import Sym, Unsupported
+from pyvc.tensor import Tensor, SymList
+from pyvc import matalg as M
+from pyvc.diff import derivative
+
+REG = "inference.gp.regression"
+COV = "inference.gp.covariance"
+MEAN = "inference.gp.mean"
+
+
+def _names(func):
+    loop = [n for n in ast.walk(func.node) if isinstance(n, ast.For)][0]
+    return [n.func.value.id for n in ast.walk(loop) if isinstance(n, ast.Call) and isinstance(n.func, ast.Attribute)
+            and n.func.attr == "append" and isinstance(n.func.value, ast.Name)]
+
+
+def _jac(st, t):
+    """J_t = A_t Diag(k(p_t, x)):  J[c, j] = d k(p_t, x_j) / d p_t,c   (kernel contract of gradient_terms)"""
+    A = M.atom("A", st.d, st.n, params=(t,))
+    kq = M.selector(t, st.m) @ st.Kqx                    # 1 x n
+    return A * kq
+
+
+@contract("C16", "gradient_predictions", native=False, replay_with="derivatives_native")
+def gradient_predictions(vc):
+    """gradient(): for every query point the mean is J alpha + dm/dq (the derivative of the predictive mean
+    K_qx alpha + m(q)) and the covariance is Diag(R) - J (K+S)^-1 J^T (prior gradient covariance minus the part
+    explained by the data)"""
+    from contracts.gp_matrix import GpState, MapLoop
+    st = GpState(vc)
+    gp = st.regressor()
+    alpha = st.Ci @ st.r
+
+    def exp_mean(t):
+        tz = S.z(t)
+        return _jac(st, tz) @ alpha[:, None] + M.atom("gm", st.d, params=(tz,))[:, None]
+
+    def exp_cov(t):
+        tz = S.z(t)
+        J = _jac(st, tz)
+        return M.mat_diag(M.atom("R", st.d, params=(tz,))) - J @ st.Ci @ J.T
+
+    func = vc.I.get_function(REG, "GpRegressor.gradient")
+    vc.loop("GpRegressor.gradient", "for#0", MapLoop(vc, st, _names(func), exp_mean, exp_cov))
+    vc.assume(S.And(S.cmp(">=", st.m, 2), S.cmp(">=", st.d, 2)))       # (squeeze() of singleton axes: bounded layer)
+    mu, cov = vc.call(gp, "gradient", st.points)
+    vc.ensures("one_gradient_vector_and_covariance_matrix_per_point", vc.ndim(mu) == 2 and vc.ndim(cov) == 3)
+    t, c_ = vc.index("t", st.m), vc.index("c", st.d)
+    c2 = vc.index("c2", st.d)
+    vc.ensures("returned_mean_entry", S.cmp("==", mu.at(t, c_), exp_mean(t).at(c_, 0)))
+    vc.ensures("returned_covariance_entry", S.cmp("==", cov.at(t, c_, c2), exp_cov(t).at(c_, c2)))
+    vc.ensures("covariance_symmetric", S.cmp("==", cov.at(t, c_, c2), cov.at(t, c2, c_)))
+
+
+@contract("C16", "spatial_derivatives", native=False, replay_with="derivatives_native")
+def spatial_derivatives(vc):
+    """spatial_derivatives(): d/dq of the predictive mean K_qx alpha + m(q) is J alpha + dm/dq and d/dq of the
+    predictive variance K_qq - K_qx C^-1 K_xq is -2 J C^-1 K_xq (K_qq does not depend on q for a stationary kernel)"""
+    from contracts.gp_matrix import GpState, MapLoop
+    st = GpState(vc)
+    gp = st.regressor()
+    alpha = st.Ci @ st.r
+
+    def exp_mean(t):
+        tz = S.z(t)
+        return _jac(st, tz) @ alpha[:, None] + M.atom("gm", st.d, params=(tz,))[:, None]
+
+    def exp_var(t):
+        tz = S.z(t)
+        kq = M.selector(tz, st.m) @ st.Kqx
+        return (_jac(st, tz) @ st.Ci @ kq.T).scale(-2)[None, :]
+
+    func = vc.I.get_function(REG, "GpRegressor.spatial_derivatives")
+    vc.loop("GpRegressor.spatial_derivatives", "for#0", MapLoop(vc, st, _names(func), exp_mean, exp_var))
+    vc.assume(S.And(S.cmp(">=", st.m, 2), S.cmp(">=", st.d, 2)))
+    dmu, dvar = vc.call(gp, "spatial_derivatives", st.points)
+    vc.ensures("one_gradient_vector_per_point", vc.ndim(dmu) == 2 and vc.ndim(dvar) == 2)
+    t, c_ = vc.index("t", st.m), vc.index("c", st.d)
+    vc.ensures("returned_mean_derivative", S.cmp("==", dmu.at(t, c_), exp_mean(t).at(c_, 0)))
+    vc.ensures("returned_variance_derivative", S.cmp("==", dvar.at(t, c_), exp_var(t).at(0, c_, 0)))
+
+
+def _d_q(name, c):
+    """differentiate with respect to coordinate c of the query point (input vector `name`)"""
+    def dleaf(e):
+        if e.decl().name() == name:
+            k = e.arg(0)
+            if z3.is_int_value(k):
+                return z3.RealVal(1) if k.as_long() == c else None
+            return z3.If(k == c, z3.RealVal(1), z3.RealVal(0))
+        return None
+    return dleaf
+
+
+@contract("C16", "kernel_gradient_terms", native=False, replay_with="derivatives_native")
+def kernel_gradient_terms(vc):
+    """SquaredExponential.gradient_terms(q, x): A[c, j] k(q, x_j) is the derivative of the real kernel evaluation
+    k(q, x_j) with respect to q_c, and R[c] delta_cc' is the mixed second derivative of k(q, q') at q' = q"""
+    vc.c.numeric_filter = True
+    d = vc.choice("d", [1, 2, 3])
+    n = vc.int("n", lo=1)
+    x = vc.matrix("x", n, d)
+    q = vc.vector("q", d)
+    qp = vc.vector("qp", d)
+    theta = vc.vector("theta", d + 1)
+    K = vc.new(COV, "SquaredExponential")
+    A, R = vc.call(K, "gradient_terms", q, x, theta)
+    kq = vc.call(K, "__call__", q[None, :], x, theta)
+    vc.ensures("shapes", vc.ndim(A) == 2 and vc.ndim(R) == 1 and S.cmp("==", A.shape[1], n) and A.shape[0] == d and R.shape[0] == d)
+    for c in range(d):
+        vc.ensures_forall("A_times_k_is_dk_dq", n,
+                          lambda j, c=c: A[c, j] * kq[0, j] == derivative(kq[0, j], _d_q("q", c)))
+    kqq = vc.call(K, "__call__", q[None, :], qp[None, :], theta)[0, 0]
+    sub = [(S.z(qp.at(c)), S.z(q.at(c))) for c in range(d)]
+    for c in range(d):
+        for c2 in range(d):
+            mixed = derivative(derivative(kqq, _d_q("q", c)), _d_q("qp", c2))
+            at_q = S.wrap(z3.substitute(S.z(mixed), *sub))
+            vc.ensures("R_is_prior_gradient_covariance", at_q == (R[c] if c == c2 else 0))
+    # stationarity: k(q, q) does not depend on q (used for the derivative of the predictive variance)
+    k_self = vc.call(K, "__call__", q[None, :], q[None, :], theta)[0, 0]
+    for c in range(d):
+        vc.ensures("prior_variance_independent_of_position", derivative(k_self, _d_q("q", c)) == 0)
+
+
+@contract("C16", "mean_spatial_gradient", native=False, replay_with="derivatives_native")
+def mean_spatial_gradient(vc):
+    """spatial_gradient(q) of each mean function is the derivative of its own evaluation m(q) with respect to q"""
+    which = vc.choice("mean", ["ConstantMean", "LinearMean", "QuadraticMean"])
+    d = vc.choice("d", [1, 2, 3])
+    n = vc.int("n", lo=1)
+    x = vc.matrix("x", n, d)
+    p = {"ConstantMean": 1, "LinearMean": 1 + d, "QuadraticMean": 1 + 2 * d}[which]
+    theta = vc.vector("theta", p)
+    q = vc.vector("q", d)
+    Mf = vc.new(MEAN, which)
+    vc.call(Mf, "pass_spatial_data", x)
+    val = vc.call(Mf, "__call__", q, theta)
+    g = vc.call(Mf, "spatial_gradient", q, theta)
+    vc.ensures("one_entry_per_dimension", vc.ndim(g) == 1 and g.shape[0] == d)
+    for c in range(d):
+        vc.ensures("entry_is_dm_dq", g[c] == derivative(val, _d_q("q", c)))
